@@ -263,7 +263,7 @@ fn run(line: &str) -> String {
             }
             out
         }
-        "build" => {
+        "build" | "build_via_integrator" => {
             // build <dim> <periodic> anchor width <has_mask> n (loc mask)..
             let dim = a.dim();
             let per = a.b();
@@ -277,7 +277,10 @@ fn run(line: &str) -> String {
                 locs.push(a.v());
                 mask.push(a.b());
             }
-            let vor = if has_mask {
+            let vor = if cmd == "build_via_integrator" {
+                let vi = VoronoiIntegrator::build(&locs, if has_mask { Some(&mask[..]) } else { None }, anchor, width, dim, per);
+                Voronoi::from(&vi)
+            } else if has_mask {
                 Voronoi::build_partial(&locs, &mask, anchor, width, dim, per)
             } else {
                 Voronoi::build(&locs, anchor, width, dim, per)
